@@ -98,6 +98,14 @@ CHECKS = {
              "check_eqv_proc and is_eq are compared; histories recorded from random real scheduling sessions are validated as "
              "behaviours of the specification together with the tracker's final answers.",
         note="Trusted: TLC; per-field reading of the property; tracker globals reset between replayed histories."),
+    "C16": dict(level=MC, design="6/C16",
+        technique="TLA+ CursorTree (navigation laws) and Pattern (match semantics, program order, #n) specifications checked by TLC and replayed result-by-result on the public cursor API and Procedure.find",
+        text="TLC checks the navigation coherence laws (next/prev, before/after/anchor, parent/child, as_block/index/slice/expand, "
+             "invalid exactly at the edges) for all statement trees up to 4 (thorough 6) nodes and all cursors, and computes "
+             "Matches/Find for all statement forests up to 3 (thorough 4) nodes over a statement alphabet x 23 patterns; every "
+             "navigation result and every find_all / find / #n answer (including the error past the last match) is recomputed "
+             "with the real API and must be identical.",
+        note="Trusted: TLC; trees are built directly as LoopIR (no front end); expression sub-patterns limited to literals."),
 }
 
 NOT_YET = {}
